@@ -302,6 +302,12 @@ def run(ctx):
 		for qs in specs:
 			for dbs in specs[:3]:
 				sub({'cmd': 'querysig', 'qspec': list(qs), 'dbspec': list(dbs)}, 'query-sigfile')
+		# parameter sets of the same total length whose prefixes differ by leading A's only (k and prefix both differ: `5/AAT` vs `6/AT`):
+		# anything that identifies a parameter set by a derived number rather than by (k, prefix) confuses exactly these
+		for a, b in (((5, 'AAT'), (6, 'AT')), ((6, 'AT'), (5, 'AAT')), ((6, 'AAC'), (7, 'AC'))):
+			sub({'cmd': 'querysig', 'qspec': list(a), 'dbspec': list(b)}, 'query-sigfile-traded-A')
+			for r in ('sigs', 'db'):
+				sub({'cmd': 'dist', 'q': 'sigs', 'r': r, 'qspec': list(a), 'rspec': list(b), 'ek': None, 'ep': None}, 'dist-traded-A')
 		# dist: 3 x 5 sources x parameter relations x explicit options
 		for q in ('files', 'list', 'sigs'):
 			for r in ('files', 'list', 'sigs', 'db', 'square'):
